@@ -34,7 +34,7 @@ FOREIGN = ['file', 'nesteddir', 'symlink_file', 'symlink_dir', 'dir_named_metada
 FORMS = ['object', 'str', 'Path']
 CREATORS = ['asarray', 'create_array', 'asraggedarray', 'create_raggedarray', 'Array.copy', 'RaggedArray.copy',
             'archive', 'asarray_failing_iter', 'asarray_failing_cast', 'create_array_failing_fillfunc',
-            'asraggedarray_failing_iter']
+            'asraggedarray_failing_iter', 'asraggedarray_empty_iter', 'asarray_empty_iter']
 OCCUPANTS = ['array_md', 'ragged', 'larger', 'smaller', 'plainfile', 'foreigndir']
 
 
@@ -352,6 +352,10 @@ def run_create(case, env, res, parent, outside):
                 yield [3.0]
                 raise RuntimeError('source failed')
             D.asraggedarray(p, items(), overwrite=ow)
+        elif creator == 'asraggedarray_empty_iter':     # nothing to store: refused or not, foreign content stays
+            D.asraggedarray(p, (x for x in []), overwrite=ow)
+        elif creator == 'asarray_empty_iter':
+            D.asarray(p, (x for x in []), overwrite=ow)
         elif creator == 'Array.copy':
             src.copy(p, overwrite=ow)
         elif creator == 'RaggedArray.copy':
